@@ -1,4 +1,4 @@
-import Proofs.Lemmas.ForkChoiceInv2
+import Proofs.Lemmas.ForkChoiceSim
 import Proofs.Lemmas.ForkChoicePass1
 import Zrnt.ForkChoice.Spec
 /-!
@@ -8,19 +8,17 @@ Statements about the code-shaped model `Zrnt.ForkChoice` (`Zrnt/ForkChoice/Model
 `fc09`/`fc10`/`fc11` run the same operation lines on the real Go code, on this model and on the independent
 GHOST oracle `Zrnt.ForkChoice.Spec`).
 
-What is proved here, for ALL operation sequences: the structure invariant (`inv_structure`) and, for all
-sequences inside the domain of the refinement, the chain structure, the votes invariant and the weights invariant
-(`inv_weights`): the weight of every node is the sum of the balances of the validators whose applied vote lies in
-its fork-choice subtree.
-
-What is NOT proved: the last step of the refinement,
-  `head_eq_ghost : ∀ ops, Admissible .none ops → answers of `head`/`findhead` in `(run .none ops).2` =
-                   those of `(Spec.run none ops).2``
-(best-child/best-descendant links equal the specification's choice after a connection pass, hence the head equals
-the GHOST walk of `Spec.lean`). On the current tree (after the fixes 6f39f86, e38b1d0, 88e6a0a) it is validated by
-the correspondence only: every `head`/`findhead` answer of the Go code is compared with the oracle on the generated
-histories (viability changes, vote moves, balance changes, pins included), with no disagreement outside the known
-OnPrune family.
+What is proved here:
+* for ALL operation sequences: the structure invariant (`inv_structure`, while nothing is pruned);
+* for all sequences inside the domain of the refinement (`Admissible`): chain structure, votes and weights
+  invariants (`inv_weights`: the weight of every node is the sum of the balances of the validators whose applied
+  vote lies in its fork-choice subtree), correctness of the best-child / best-descendant links after every
+  connection pass (`inv_best`), and the refinement itself (`head_eq_ghost_partial`): every `Head()` /
+  `FindHead()` answer of the model, error or value, is the answer of the GHOST oracle `Spec.lean`.
+The full-strength `head_eq_ghost` (no hypothesis on the history) is false of the current code because of the
+OnPrune family (known finding): `head_eq_ghost_false` exhibits a history with a finalization on which the two
+heads differ. Before the fixes 6f39f86 (ComputeDeltas), e38b1d0 (ProcessAttestation guard) and 88e6a0a
+(non-leading best child) the partial theorem was false as well; the minimized witnesses are in `corpus/fc09.ops`.
 -/
 namespace Zrnt.Proofs.C09
 open Zrnt.ForkChoice
@@ -82,5 +80,45 @@ theorem score_changes_exact (pr : PA) (h : WF pr) (hz : NoZero pr) (votes : List
     (hd : computeDeltas pr.indices votes oldB newB = some (ds, vs')) (jE fE : Nat) :
     ∃ pr', pr.applyScoreChanges ds jE fE = .ok pr' () ∧ WF pr' ∧ FrameS pr pr' ∧ WeightsAre pr' vs' newB :=
   weights_applyDeltas pr h hz votes oldB newB hw ds vs' hd jE fE
+
+/-- **inv_best**: after every connection pass (`updateConnections`, also the second loop of `ApplyScoreChanges`) on a
+well-formed array whose siblings have different roots, every node's best child is the child with the greatest
+(weight, root) among the children that lead to a viable head (none if none leads), its best descendant is where
+following best children ends, and `nodeLeadsToViableHead` is exactly `leads`. -/
+theorem inv_best (pr : PA) (h : WF pr) (hs : SibDistinct pr) :
+    LinksOK (pr.updateConnections).1 ∧
+    ∀ (i : Nat) (n : Node), (pr.updateConnections).1.nodes[i]? = some n →
+      (pr.updateConnections).1.nodeLeads n = some (leads (pr.updateConnections).1 i) :=
+  linksOK_updateConnections pr h hs
+
+/-- **head_eq_ghost (partial: admissible histories).** On every history inside the domain — non-zero roots,
+empty-slot insertions under a known root at or after its first slot, no vote for Go's zero `NodeRef`, finalized
+checkpoint never moved (so nothing is pruned) — every `Head()` and `FindHead(anchor, slot)` answer of the model,
+value or error, equals the specification's: the LMD-GHOST walk from the pinned/justified start node through the
+children that lead to a viable head, taking the greatest (sum of balances of the validators whose latest accepted
+vote lies in the subtree, root). The model and specification states stay related (`MRef`) throughout. -/
+theorem head_eq_ghost_partial (ops : List Op) (ha : Admissible .none ops) :
+    HeadsAgree ops (run .none ops).2 (Spec.run none ops).2 ∧ MRef (run .none ops).1 (Spec.run none ops).1 :=
+  head_eq_ghost_run ops .none none trivial trivial ha
+
+/-- non-vacuity: `hist` above is admissible and contains two `head` queries -/
+example : HeadsAgree hist (run .none hist).2 (Spec.run none hist).2 :=
+  (head_eq_ghost_partial hist (admissibleB_sound hist .none (by decide +kernel))).1
+
+/-- a history with a finalization (gap-slot anchor, no sink): the code's head stays on the empty-slot chain of the
+finalized root, the specification's head is the block voted for -/
+def witHead : List Op := [
+  .init 4 (rt 0xaa + 1) 0 0 ⟨0, rt 0xaa + 1⟩ ⟨0, rt 0xaa + 1⟩ .absent [32, 33, 32],
+  .block (rt 0xaa + 1) (rt 0x80) 1 0 0, .att 0 (rt 0x80) 1, .block (rt 0x80) (rt 0xff) 2 1 0,
+  .block (rt 0xff) (rt 0x7f) 3 1 0, .block (rt 0x7f) (rt 2) 5 1 1,
+  .justify (rt 2) ⟨1, rt 0x7f⟩ ⟨1, rt 0x7f⟩ (some [32, 33, 32]),
+  .att 0 (rt 2) 5, .head]
+
+/-- the full-strength statement (every history) is false of the current code (OnPrune family, known finding) -/
+theorem head_eq_ghost_false : ¬ ∀ ops : List Op, HeadsAgree ops (run .none ops).2 (Spec.run none ops).2 := by
+  intro h
+  have := headsAgreeB_of _ _ _ (h witHead)
+  revert this
+  decide +kernel
 
 end Zrnt.Proofs.C09
